@@ -71,7 +71,7 @@ def record_repo_tests(paths, timeout=3000):
     env["PYTHONPATH"] = str(VERIF) + os.pathsep + str(VERIF / "harness") + os.pathsep + env.get("PYTHONPATH", "")
     try:
         subprocess.run([sys.executable, "-m", "pytest", "-q", "-p", "no:cacheprovider", "-p", "verif_recorder", "-x", "--timeout=900"] + paths,
-                       cwd="/repo", env=env, capture_output=True, text=True, timeout=timeout)
+                       cwd=os.environ.get("VERIF_REPO", "/repo"), env=env, capture_output=True, text=True, timeout=timeout)
         try:
             return json.load(open(out))
         except Exception:
